@@ -117,9 +117,9 @@ def verdict (c0 : OptCase) (res : Result) : String :=
      else "FAIL unknown-status")
   else if !infeasOk P R res c.pts then "FAIL status-INFEASIBLE-but-a-feasible-point-exists"
   else
-    let w := witness P R res
+    let w := witness (witProblem P R) R res
     match w with
-    | .refuted => "FAIL " ++ witnessWhy P R res
+    | .refuted => "FAIL " ++ (if R.rigor && witness P R res != .refuted then "rigor-" else "") ++ witnessWhy (witProblem P R) R res
     | _ =>
       -- oracle cross-check: an exactly feasible loup point below the known minimum contradicts the oracle
       let contradiction : Bool :=
